@@ -207,6 +207,23 @@ def _run_cases(chk, tier):
                                                                                      active=active, npartitions=npart, p=p), size=n)
         if k < 3:
             chk.sample(dict(kind=kind, n=n, active=active, npartitions=npart, p=p, elements=els[:2], points=pts[:4]), cap=5)
+    # an input partition without any located geometry in the active column (all missing): the curve still spans the located rows
+    for k in range(4 if tier == "quick" else 30):
+        kind = geo.KINDS[(3 * k) % 7]
+        in_parts = r.choice((2, 3, 4))
+        per = r.choice((3, 4))
+        n = in_parts * per
+        els = random_family(kind, r, n, 8)
+        pts = [[0, 0], [8, 8]] + [[r.randint(0, 8), r.randint(0, 8)] for _ in range(n - 2)]
+        active = ("anchor", "geometry")[k % 2]
+        gone = r.randrange(1, in_parts)                     # not the first partition (it holds the corners of the extent)
+        for i in range(gone * per, (gone + 1) * per):
+            if active == "anchor":
+                pts[i] = None
+            else:
+                els[i] = None
+        run_case(chk, r, kind, els, pts, active, in_parts, r.randint(1, 3), r.choice((2, 5, 10)), "all-missing-input-partition")
+        chk.count("all-missing-input-partition")
 
 
 def main(tier):
